@@ -10,6 +10,8 @@ p = os.path.join(ROOT, "not_applicable.json")
 if os.path.exists(p):
     na_reasons = json.load(open(p))
 hooks = json.load(open(os.path.join(ROOT, "hooks.json")))
+ready = set(open(os.path.join(ROOT, "ready.txt")).read().split())
+table = {k: v for k, v in table.items() if k in ready}
 checks = []
 for pr in props:
     pid = pr["id"]
